@@ -252,7 +252,8 @@ def evaluate(r, prop, known):
     # functions of the repository that have no contract (new helpers introduced by a refactoring, mostly): a caller that fails
     # to verify may only be failing because the callee says nothing -> undecided, never an alarm
     contracted_names = set(c['name'] for c in asm.contracted)
-    repo_fn_names = set(f.name for fc in asm.files.values() for f in fc.fns)
+    # (nom_noalloc.rs is compiled only in the no-allocator configuration; its `count` / `many_m_n` shadow nom's names)
+    repo_fn_names = set(f.name for rel_, fc in asm.files.items() if rel_ != 'messages/nom_noalloc.rs' for f in fc.fns)
     uncontracted = repo_fn_names - contracted_names
 
     def calls_uncontracted(c):
